@@ -27,6 +27,8 @@ type Session struct {
 	poisoned    bool // a cycle was seen: no further library call (they would recurse without end)
 }
 
+var numTypeTurn int // which Go number type the next integral Set goes through (deterministic: the run is single-threaded)
+
 func (s *Session) generic() bool {
 	s.setters++
 	return s.setters%2 == 1
@@ -404,17 +406,37 @@ func (s *Session) execInner(f []string) (obs string) {
 	case "setnum":
 		v := bitsOf(f[2])
 		if s.generic() {
-			if v == math.Trunc(v) && math.Abs(v) < 1<<31 && !(v == 0 && math.Signbit(v)) {
-				switch int64(v) & 3 {
-				case 0:
-					return unitStr(s.node(f[1]).Set(int(v)))
-				case 1:
-					return unitStr(s.node(f[1]).Set(int64(v)))
-				case 2:
-					return unitStr(s.node(f[1]).Set(float32(v)))
+			// every Go number type Set accepts, whenever it holds the value exactly
+			n := s.node(f[1])
+			if v == math.Trunc(v) && !(v == 0 && math.Signbit(v)) {
+				numTypeTurn++
+				k := numTypeTurn % 12
+				switch {
+				case k == 0 && math.Abs(v) < 1<<31:
+					return unitStr(n.Set(int(v)))
+				case k == 1 && math.Abs(v) < 1<<62:
+					return unitStr(n.Set(int64(v)))
+				case k == 2 && math.Abs(v) < 1<<24:
+					return unitStr(n.Set(float32(v)))
+				case k == 3 && math.Abs(v) < 1<<7:
+					return unitStr(n.Set(int8(v)))
+				case k == 4 && math.Abs(v) < 1<<15:
+					return unitStr(n.Set(int16(v)))
+				case k == 5 && math.Abs(v) < 1<<31:
+					return unitStr(n.Set(int32(v)))
+				case k == 6 && v >= 0 && v < 1<<31:
+					return unitStr(n.Set(uint(v)))
+				case k == 7 && v >= 0 && v < 1<<8:
+					return unitStr(n.Set(uint8(v)))
+				case k == 8 && v >= 0 && v < 1<<16:
+					return unitStr(n.Set(uint16(v)))
+				case k == 9 && v >= 0 && v < 1<<32:
+					return unitStr(n.Set(uint32(v)))
+				case k == 10 && v >= 0 && v < 1<<62:
+					return unitStr(n.Set(uint64(v)))
 				}
 			}
-			return unitStr(s.node(f[1]).Set(v))
+			return unitStr(n.Set(v))
 		}
 		return unitStr(s.node(f[1]).SetNumeric(v))
 	case "setstr":
